@@ -33,8 +33,10 @@ PASS_METHODS = {"contiguous", "clone", "long", "detach", "to", "int", "unsqueeze
 class Extractor:
     def __init__(self, rd: ReachingDefs, leaf_of_def: Callable, leaf_of_expr: Callable = None, max_depth: int = 25,
                  term_hook: Callable = None, cond_hook: Callable = None):
+        self.index_leaf = None  # set to a leaf name to turn torch.arange(a, b, c) into a + k * c with k < (b - a) / c
         self.term_hook = term_hook  # (expr, extractor, depth) -> term or None
         self.cond_hook = cond_hook
+        self.constraints = []  # domain conditions collected while passing index ranges (torch.arange)
         self.rd = rd
         self.leaf_of_def = leaf_of_def  # (Def) -> leaf name or None
         self.leaf_of_expr = leaf_of_expr or (lambda e: None)
@@ -108,6 +110,23 @@ class Extractor:
             return ("neg", self.term(e.operand, depth + 1))
         if isinstance(e, ast.BinOp) and isinstance(e.op, (ast.Add, ast.Sub)):
             return ("add" if isinstance(e.op, ast.Add) else "sub", self.term(e.left, depth + 1), self.term(e.right, depth + 1))
+        if isinstance(e, ast.BinOp) and isinstance(e.op, (ast.Mult, ast.FloorDiv)):
+            return ("mul" if isinstance(e.op, ast.Mult) else "floordiv", self.term(e.left, depth + 1), self.term(e.right, depth + 1))
+        if isinstance(e, ast.Call) and call_name(e) == "torch.arange" and self.index_leaf is not None:
+            pos = list(e.args)
+            if len(pos) == 1:
+                a, b, c = 0, self.term(pos[0], depth + 1), 1
+            elif len(pos) == 2:
+                a, b, c = self.term(pos[0], depth + 1), self.term(pos[1], depth + 1), 1
+            elif len(pos) == 3:
+                a, b, c = (self.term(x, depth + 1) for x in pos)
+            else:
+                raise Unknown("arange arity")
+            el = ("add", a, ("mul", ("leaf", self.index_leaf), c))
+            cstr = ("cmp", "<", el, b)
+            if cstr not in self.constraints:
+                self.constraints.append(cstr)
+            return el
         if isinstance(e, ast.Call):
             cn = call_name(e)
             if cn in ("torch.min", "torch.minimum", "min") and len(e.args) == 2:
@@ -167,6 +186,10 @@ def ev(t, env: Dict[str, int]) -> int:
         return ev(t[1], env) + ev(t[2], env)
     if k == "sub":
         return ev(t[1], env) - ev(t[2], env)
+    if k == "mul":
+        return ev(t[1], env) * ev(t[2], env)
+    if k == "floordiv":
+        return ev(t[1], env) // ev(t[2], env)
     if k == "max":
         return max(ev(t[1], env), ev(t[2], env))
     if k == "min":
@@ -198,6 +221,8 @@ def show(t) -> str:
         return f"-{show(t[1])}"
     if k in ("add", "sub"):
         return f"({show(t[1])} {'+' if k == 'add' else '-'} {show(t[2])})"
+    if k in ("mul", "floordiv"):
+        return f"({show(t[1])} {'*' if k == 'mul' else '//'} {show(t[2])})"
     if k in ("max", "min"):
         return f"{k}({show(t[1])}, {show(t[2])})"
     if k == "zero_if":
